@@ -1332,13 +1332,20 @@ func (g *bridgeGen) processTx(vc *voteCtx, st *project.BridgeState) (*brTx, erro
 		}
 		if rare(4) { // deliberately: a withdrawal in a terminal or processing state whose address is fine (everything else about the
 			// transaction is right, only the status stands against it) - e.g. a cancellation approved a moment ago
-			var late []int64
+			byStatus := map[string][]int64{}
 			for _, w := range st.Wd {
 				if (w.Status == "canceled" || w.Status == "paid" || w.Status == "processing") && scriptOf[w.Addr] != nil {
-					late = append(late, w.ID)
+					byStatus[w.Status] = append(byStatus[w.Status], w.ID)
 				}
 			}
-			if len(late) > 0 && len(ids) < 3 {
+			var classes []string // one of the classes that occur, each with the same chance (cancelled ones are the rarest in the state)
+			for _, c := range []string{"canceled", "paid", "processing"} {
+				if len(byStatus[c]) > 0 {
+					classes = append(classes, c)
+				}
+			}
+			if len(classes) > 0 && len(ids) < 3 {
+				late := byStatus[classes[r.Intn(len(classes))]]
 				ids = append(ids, late[r.Intn(len(late))])
 			}
 		}
